@@ -105,6 +105,7 @@ struct Task {
     std::function<void()> job;
     bool preemptible;
     long countdown;
+    u64 ticks_in_quantum;
     u64 edges_call;                 // edges inside the current API call
     u64 edges_total;
     OpRec* cur;                     // record of the operation in flight
